@@ -168,6 +168,13 @@ class Geo:
             if ds and len(ds) == 1:
                 return self.conv(ds[0], sub, over, depth + 1)
             return Rat.sym('<%s>' % node.id)
+        if isinstance(node, ast.IfExp):
+            # both arms the same value: the selection does not matter
+            a = self.conv(node.body, sub, over, depth)
+            b = self.conv(node.orelse, sub, over, depth)
+            if is_zero(a - b):
+                return a
+            return Rat.sym('<%s>' % s)
         if isinstance(node, ast.Subscript):
             base, keys, idx = self.split(node)
             try:
@@ -265,11 +272,22 @@ class Geo:
         return self.conv(st.value, sub, over, depth + 1)
 
 
-def check(ctx, rule, counts):
+def check(ctx, rule, counts, fixed=None):
+    """fixed: {symbol: Rat} -- values some symbols are known to have on the
+    path being judged (C08.R9: `Dw == 0.0` selected); the identities are
+    then required for those values only."""
     repo = ctx.repo
     fi = repo.func('region_rodded', 'calculate_geometry')
     g = Geo(fi)
     i = Rat.sym('i')
+
+    def zero(r):
+        for k, v in (fixed or {}).items():
+            if reduce_r3(r).d.subs(k, v.n).is_zero():
+                raise AnalysisError('calculate_geometry: %s = %r makes a '
+                                    'denominator vanish' % (k, v.n))
+            r = r.subs(k, v)
+        return is_zero(r)
 
     def over_cf(base, keys, ir):
         if base == 'd' and keys == ('wcorner',) and len(ir) == 2 and \
@@ -310,7 +328,7 @@ def check(ctx, rule, counts):
         except NotPolynomial as e:
             raise AnalysisError('calculate_geometry: %s' % e)
         want = wcorner_cf(ir[0], face)
-        ok = is_zero(val - want)
+        ok = zero(val - want)
         if sub:
             n_step += 1
         else:
@@ -331,12 +349,12 @@ def check(ctx, rule, counts):
         tot = g.element('duct', ('total area',), [i], over_cf, 0)
     except NotPolynomial as e:
         raise AnalysisError('calculate_geometry duct areas: %s' % e)
-    req(is_zero(c(6) * ((N - c(1)) * e_a + c_a) - tot), fi.node,
+    req(zero(c(6) * ((N - c(1)) * e_a + c_a) - tot), fi.node,
         'duct wall cells must tile their annulus: 6 ((n_ring-1) x edge cell '
         '+ corner cell) = sqrt3/2 (F_out^2 - F_in^2); residual %r'
         % reduce_r3(c(6) * ((N - c(1)) * e_a + c_a) - tot).n,
         'duct annulus tiling')
-    req(is_zero(tot - R3 / c(2) * (F(i, 1) ** 2 - F(i, 0) ** 2)), fi.node,
+    req(zero(tot - R3 / c(2) * (F(i, 1) ** 2 - F(i, 0) ** 2)), fi.node,
         'duct total area = sqrt3/2 (F_out^2 - F_in^2)', 'duct total area')
     # ---- bypass annulus tiling
     try:
@@ -346,11 +364,11 @@ def check(ctx, rule, counts):
     except NotPolynomial as e:
         raise AnalysisError('calculate_geometry bypass areas: %s' % e)
     res = c(6) * ((N - c(1)) * e_b + c_b) - tb
-    req(is_zero(res), fi.node,
+    req(zero(res), fi.node,
         'bypass gap cells must tile their annulus: 6 ((n_ring-1) x edge + '
         'corner) = sqrt3/2 (F_in,next^2 - F_out^2); residual %r'
         % reduce_r3(res).n, 'bypass annulus tiling')
-    req(is_zero(tb - R3 / c(2) * (F(i + c(1), 0) ** 2 - F(i, 1) ** 2)),
+    req(zero(tb - R3 / c(2) * (F(i + c(1), 0) ** 2 - F(i, 1) ** 2)),
         fi.node, 'bypass total area = sqrt3/2 (F_in,next^2 - F_out^2)',
         'bypass total area')
     # ---- coolant cells + pins + wires tile the inner hexagon
@@ -364,7 +382,7 @@ def check(ctx, rule, counts):
     solid = n_pin * (PI * D_ ** 2 / c(4) + PI * DW ** 2 / (c(4) * CT))
     res = n_int * a[0] + n_edge * a[1] + n_cor * a[2] + solid - \
         R3 / c(2) * F(c(0), 0) ** 2
-    req(is_zero(res), fi.node,
+    req(zero(res), fi.node,
         'coolant cells, pins and wires must tile the hexagon inside the '
         'inner duct for every ring count: n_int A_int + n_edge A_edge + '
         'n_corner A_corner + n_pin pi (D^2 + Dw^2/cos)/4 = sqrt3/2 F^2; '
